@@ -74,14 +74,14 @@ def build_jobs(tier):
     texts += F.f_rule_siblings(ops, consts=(0, 1))[:: (4 if tier == "quick" else 1)]
     texts += F.f_rule_triples(both)[:: (4 if tier == "quick" else 1)]
     texts += F.deep_stack_blocks()
-    texts += F.f_rule_existing()[:: (8 if tier == "quick" else 3)]
+    texts += F.f_rule_existing()[:: (24 if tier == "quick" else 3)]
     texts += F.f_mem_consuming()
     # opcodes the folding code names in lower case only (the AST extraction of rule opcodes does not see them): two- and
     # three-constant forms reach compute_binary / compute_ternary for them
-    texts += F.f_rule_singles(["SAR", "SMOD", "BYTE", "SIGNEXTEND", "ADDMOD", "MULMOD", "MOD"], contexts=("stack",))[:: (2 if tier == "quick" else 1)]
-    texts += F.f_long_partition(lengths=(23, 31), max_stores=2)[:: (4 if tier == "quick" else 1)]
-    texts += F.f_rule_singles(ops, contexts=("both", "bothstore"))[:: (3 if tier == "quick" else 1)]
-    texts += F.f_rule_pairs(both, consts=[0, 1], contexts=("both",))[:: (6 if tier == "quick" else 1)]
+    texts += F.f_rule_singles(["SAR", "SMOD", "BYTE", "SIGNEXTEND", "ADDMOD", "MULMOD", "MOD"], contexts=("stack",))[:: (6 if tier == "quick" else 1)]
+    texts += F.f_long_partition(lengths=(23, 31), max_stores=2)[:: (8 if tier == "quick" else 1)]
+    texts += F.f_rule_singles(ops, contexts=("both", "bothstore"))[:: (9 if tier == "quick" else 1)]
+    texts += F.f_rule_pairs(both, consts=[0, 1], contexts=("both",))[:: (18 if tier == "quick" else 1)]
     texts += F.f_mid_terminal()[:: (3 if tier == "quick" else 1)]
     # MSIZE observes memory expansion: removing a dead load or hash before it is visible
     texts += ["PUSH ffff MLOAD POP MSIZE", "MSIZE PUSH ffff MLOAD POP MSIZE", "DUP1 MLOAD POP MSIZE", "PUSH 20 DUP2 KECCAK256 POP MSIZE",
